@@ -35,6 +35,7 @@ type Obligation struct {
 	Result SolverResult
 	Inputs []inputVar
 	Expect string // "unsat" normally; "sat" for vacuity guards
+	replay *replayInfo
 }
 
 type inputVar struct {
@@ -78,6 +79,8 @@ type Exec struct {
 	allocBound  *Term
 	vacChecks   []*Obligation
 	localRefs   map[string]bool
+	topParams   []Val
+	curResults  []Val
 	modTargets  []modTarget
 	explicitMod bool
 	loopLocal   map[string]map[string]bool // loop id -> key -> written at a reference that is not a modifies target
@@ -126,6 +129,9 @@ func (x *Exec) addObligation(class, fnName, label, text string, pc, goal Term, e
 	ob := &Obligation{Class: class, Func: fnName, Text: text, PC: pc, Goal: goal, script: x.S, mark: x.S.Mark(), extra: extra, Expect: "unsat"}
 	ob.Name = x.oblName(fnName, class, label)
 	ob.Inputs = x.inputs
+	if x.topParams != nil {
+		ob.replay = &replayInfo{fn: x.fn, params: x.topParams, results: x.curResults, names: x.S.names}
+	}
 	x.obls = append(x.obls, ob)
 }
 
